@@ -1,2 +1,356 @@
-use crate::harness::Gen;
-pub fn gens() -> Vec<Gen> { vec![] }
+//! C02: only an intact issuer-signed JWT under the resolver's key is accepted.
+
+use crate::harness::{fail, Gen, Verdict};
+use crate::keys;
+use crate::oracle::Strategy;
+use crate::pipeline::{honest_presentation, select_all, sign, Cfg};
+use crate::rng::Rng;
+use crate::sut::{self, Out};
+use crate::util::{b64d, b64e, jstr, short, Parts, FAR_EXP, J};
+use jsonwebtoken::{Algorithm, EncodingKey, Header};
+use serde_json::json;
+use std::str::FromStr;
+
+pub fn gens() -> Vec<Gen> {
+    vec![
+        Gen { name: "c02.structural", prop: "C02", tags: &["alg", "key", "resolver", "swap", "verify_sd_jwt", "src/verifier.rs"], cases: cases_structural, check },
+        Gen { name: "c02.padding", prop: "C02", tags: &["pad", "json", "parse_json", "src/lib.rs"], cases: cases_padding, check },
+        Gen { name: "c02.chars", prop: "C02", tags: &["char", "subst", "signature"], cases: cases_chars, check },
+    ]
+}
+
+pub fn base_claims(k: usize) -> J {
+    match k % 2 {
+        0 => json!({"iss": "https://issuer.example/i", "exp": FAR_EXP, "a": "x", "b": {"c": 1}}),
+        _ => json!({"iss": "https://issuer.example/i", "exp": FAR_EXP, "a": "y", "b": {"c": 2}}),
+    }
+}
+
+fn base_cfg(format: &str, alg: &str, holder: Option<&str>) -> Cfg {
+    Cfg {
+        claims: base_claims(0),
+        strategy: Strategy::AllLevels,
+        format: format.into(),
+        alg: alg.into(),
+        decoys: false,
+        holder: holder.map(String::from),
+    }
+}
+
+fn case_of(cfg: &Cfg, mutation: J) -> J {
+    let mut c = cfg.to_json();
+    c["mutation"] = mutation;
+    c
+}
+
+fn cases_structural(_rng: &mut Rng, sink: &mut dyn FnMut(J) -> bool) {
+    for format in ["compact", "json"] {
+        for (alg, holder) in [("ES256", None), ("EdDSA", None), ("HS256", None), ("ES256", Some("eddsa")), ("EdDSA", Some("es256"))] {
+            let cfg = base_cfg(format, alg, holder);
+            let mut muts = vec![json!({"kind": "none"})];
+            if alg != "HS256" {
+                for secret in ["raw", "pem", "der", "pem-trim"] {
+                    for hs in ["HS256", "HS384", "HS512"] {
+                        muts.push(json!({"kind": "hs_confusion", "secret": secret, "alg": hs}));
+                    }
+                }
+            }
+            for keep_sig in [true, false] {
+                for name in ["none", "None", "NONE", ""] {
+                    muts.push(json!({"kind": "alg_none", "alg": name, "keep_sig": keep_sig}));
+                }
+                muts.push(json!({"kind": "alg_missing", "keep_sig": keep_sig}));
+            }
+            for other in ["ES256", "ES384", "EdDSA", "RS256", "PS256", "HS256", "XX999", "5"] {
+                if other != alg {
+                    muts.push(json!({"kind": "alg_rewrite", "alg": other}));
+                }
+            }
+            for key in ["ES256-other", "EdDSA-other", "HS256-other", "ES256", "EdDSA", "HS256"] {
+                if key != alg {
+                    muts.push(json!({"kind": "resolver_key", "key": key}));
+                    muts.push(json!({"kind": "resigned", "key": key}));
+                }
+            }
+            for part in ["header", "payload", "signature"] {
+                muts.push(json!({"kind": "swap", "part": part}));
+            }
+            muts.push(json!({"kind": "strip_sig"}));
+            for n in [1, 2, 3, 4, 10, 40] {
+                muts.push(json!({"kind": "truncate_sig", "n": n}));
+            }
+            muts.push(json!({"kind": "payload_edit", "what": "claim"}));
+            muts.push(json!({"kind": "payload_edit", "what": "digest"}));
+            muts.push(json!({"kind": "payload_edit", "what": "exp"}));
+            muts.push(json!({"kind": "iss_resolver", "variant": 0}));
+            muts.push(json!({"kind": "iss_resolver", "variant": 1}));
+            for m in muts {
+                if !sink(case_of(&cfg, m)) {
+                    return;
+                }
+            }
+        }
+    }
+}
+
+fn cases_padding(_rng: &mut Rng, sink: &mut dyn FnMut(J) -> bool) {
+    for format in ["json", "compact"] {
+        for (alg, holder) in [("ES256", None), ("EdDSA", Some("es256")), ("HS256", None)] {
+            let cfg = base_cfg(format, alg, holder);
+            for part in ["signature", "payload", "header"] {
+                for n in [1, 2, 3] {
+                    if !sink(case_of(&cfg, json!({"kind": "append", "part": part, "text": "=".repeat(n)}))) {
+                        return;
+                    }
+                }
+                for text in ["A", " ", "\n", "%3D", "\u{0}"] {
+                    if !sink(case_of(&cfg, json!({"kind": "append", "part": part, "text": text}))) {
+                        return;
+                    }
+                }
+            }
+        }
+    }
+}
+
+fn cases_chars(_rng: &mut Rng, sink: &mut dyn FnMut(J) -> bool) {
+    // every position of every part: substitution (2 replacement choices), deletion, insertion
+    for (format, alg, holder) in [("compact", "ES256", None), ("json", "ES256", None), ("compact", "EdDSA", Some("es256")), ("json", "HS256", None), ("json", "EdDSA", Some("eddsa")), ("compact", "HS256", None)] {
+        let cfg = base_cfg(format, alg, holder);
+        // lengths of the parts are stable for fixed claims: probe once
+        let Ok((_, pres)) = honest_presentation(&cfg, &select_all(&cfg.claims)) else { continue };
+        let Some(p) = Parts::parse(&pres, format) else { continue };
+        for (part, len) in [("signature", p.signature_b64().len()), ("header", p.header_b64().len()), ("payload", p.payload_b64().len())] {
+            for pos in 0..=len {
+                let mut muts = vec![];
+                if pos < len {
+                    muts.push(json!({"kind": "subst", "part": part, "pos": pos, "how": "next"}));
+                    muts.push(json!({"kind": "subst", "part": part, "pos": pos, "how": "flipcase"}));
+                    muts.push(json!({"kind": "delete", "part": part, "pos": pos}));
+                }
+                muts.push(json!({"kind": "insert", "part": part, "pos": pos, "ch": if pos % 2 == 0 { "A" } else { "_" }}));
+                for m in muts {
+                    if !sink(case_of(&cfg, m)) {
+                        return;
+                    }
+                }
+            }
+        }
+    }
+}
+
+const B64: &str = "ABCDEFGHIJKLMNOPQRSTUVWXYZabcdefghijklmnopqrstuvwxyz0123456789-_";
+
+fn set_part(p: &Parts, part: &str, new: &str) -> Parts {
+    let (h, pl, s) = (p.header_b64(), p.payload_b64(), p.signature_b64());
+    let jwt = match part {
+        "header" => format!("{new}.{pl}.{s}"),
+        "payload" => format!("{h}.{new}.{s}"),
+        _ => format!("{h}.{pl}.{new}"),
+    };
+    Parts { jwt, disclosures: p.disclosures.clone(), kb: p.kb.clone() }
+}
+
+fn get_part<'a>(p: &'a Parts, part: &str) -> &'a str {
+    match part {
+        "header" => p.header_b64(),
+        "payload" => p.payload_b64(),
+        _ => p.signature_b64(),
+    }
+}
+
+fn with_header(p: &Parts, header: &J, keep_sig: bool) -> Parts {
+    let h = b64e(jstr(header).as_bytes());
+    let mut q = set_part(p, "header", &h);
+    if !keep_sig {
+        q = set_part(&q, "signature", "");
+    }
+    q
+}
+
+/// Apply a mutation to the issuer-signed JWT of presentation `p`. Returns the tampered
+/// presentation and the resolver key spec, or None if the mutation does not apply.
+pub fn mutate(cfg: &Cfg, p: &Parts, m: &J) -> Option<(Parts, J)> {
+    let own_key = J::String(cfg.alg.clone());
+    let kind = m["kind"].as_str()?;
+    let part = m["part"].as_str().unwrap_or("signature");
+    let cur: Vec<char> = get_part(p, part).chars().collect();
+    let pos = m["pos"].as_u64().unwrap_or(0) as usize;
+    match kind {
+        "subst" => {
+            if pos >= cur.len() {
+                return None;
+            }
+            let c = cur[pos];
+            let new_c = match m["how"].as_str()? {
+                "next" => {
+                    let i = B64.find(c)?;
+                    B64.chars().nth((i + 1) % 64)?
+                }
+                _ => {
+                    if c.is_ascii_lowercase() {
+                        c.to_ascii_uppercase()
+                    } else if c.is_ascii_uppercase() {
+                        c.to_ascii_lowercase()
+                    } else if c == '-' {
+                        '_'
+                    } else if c == '_' {
+                        '-'
+                    } else {
+                        char::from_digit((c.to_digit(10)? + 5) % 10, 10)?
+                    }
+                }
+            };
+            let mut v = cur.clone();
+            v[pos] = new_c;
+            Some((set_part(p, part, &v.iter().collect::<String>()), own_key))
+        }
+        "delete" => {
+            if pos >= cur.len() {
+                return None;
+            }
+            let mut v = cur.clone();
+            v.remove(pos);
+            Some((set_part(p, part, &v.iter().collect::<String>()), own_key))
+        }
+        "insert" => {
+            let mut v = cur.clone();
+            v.insert(pos.min(v.len()), m["ch"].as_str()?.chars().next()?);
+            Some((set_part(p, part, &v.iter().collect::<String>()), own_key))
+        }
+        "append" => {
+            let s: String = cur.iter().collect::<String>() + m["text"].as_str()?;
+            Some((set_part(p, part, &s), own_key))
+        }
+        "strip_sig" => Some((set_part(p, "signature", ""), own_key)),
+        "truncate_sig" => {
+            let n = m["n"].as_u64()? as usize;
+            let s = p.signature_b64();
+            if n >= s.len() {
+                return None;
+            }
+            Some((set_part(p, "signature", &s[..s.len() - n]), own_key))
+        }
+        "alg_none" => {
+            let mut h = p.header()?;
+            h["alg"] = m["alg"].clone();
+            Some((with_header(p, &h, m["keep_sig"].as_bool()?), own_key))
+        }
+        "alg_missing" => {
+            let mut h = p.header()?;
+            h.as_object_mut()?.shift_remove("alg");
+            Some((with_header(p, &h, m["keep_sig"].as_bool()?), own_key))
+        }
+        "alg_rewrite" => {
+            let mut h = p.header()?;
+            h["alg"] = m["alg"].clone();
+            Some((with_header(p, &h, true), own_key))
+        }
+        "hs_confusion" => {
+            let pem = keys::issuer_pub_pem(&cfg.alg);
+            if pem.is_empty() {
+                return None;
+            }
+            let secret: Vec<u8> = match m["secret"].as_str()? {
+                "raw" => keys::spki_raw_key(pem),
+                "der" => keys::pem_der(pem),
+                "pem-trim" => pem.trim().as_bytes().to_vec(),
+                _ => pem.as_bytes().to_vec(),
+            };
+            let payload = J::Object(p.payload()?);
+            let header = Header::new(Algorithm::from_str(m["alg"].as_str()?).ok()?);
+            let jwt = jsonwebtoken::encode(&header, &payload, &EncodingKey::from_secret(&secret)).ok()?;
+            Some((Parts { jwt, disclosures: p.disclosures.clone(), kb: p.kb.clone() }, own_key))
+        }
+        "resolver_key" => Some((p.clone(), m["key"].clone())),
+        "resigned" => {
+            // same payload, honestly signed by a key that is not the issuer's; resolver returns the issuer key
+            let payload = J::Object(p.payload()?);
+            let jwt = sign(&payload, m["key"].as_str()?);
+            Some((Parts { jwt, disclosures: p.disclosures.clone(), kb: p.kb.clone() }, own_key))
+        }
+        "swap" => {
+            // second token signed by the same key over other claims
+            let mut cfg2 = cfg.clone();
+            cfg2.claims = base_claims(1);
+            if part == "header" {
+                // headers of two tokens of one key are identical; use a header with another typ instead
+                let mut h = p.header()?;
+                h["typ"] = json!("sd+jwt");
+                return Some((with_header(p, &h, true), own_key));
+            }
+            let (_, p2) = cfg2.issue_parts().ok()?;
+            Some((set_part(p, part, get_part(&p2, part)), own_key))
+        }
+        "payload_edit" => {
+            let mut pl = p.payload()?;
+            match m["what"].as_str()? {
+                "claim" => {
+                    pl.insert("admin".into(), json!(true));
+                }
+                "exp" => {
+                    pl.insert("exp".into(), json!(FAR_EXP + 1));
+                }
+                _ => {
+                    let sd = pl.get_mut("_sd")?.as_array_mut()?;
+                    let d = sd.get_mut(0)?;
+                    *d = json!(crate::util::digest("forged"));
+                }
+            }
+            let new_payload = b64e(jstr(&J::Object(pl)).as_bytes());
+            Some((set_part(p, "payload", &new_payload), own_key))
+        }
+        "iss_resolver" => {
+            // resolver keyed by iss; token signed with one issuer's key claims the other issuer
+            let mut pl = p.payload()?;
+            let other_iss = "https://other-issuer.example";
+            let other_key = format!("{}-other", keys::alg_of(&cfg.alg));
+            let orig_iss = pl.get("iss")?.as_str()?.to_string();
+            let resolver = json!({ orig_iss.clone(): cfg.alg, other_iss: other_key });
+            let jwt = if m["variant"].as_u64()? == 0 {
+                // signed by the honest issuer's key, claims to be the other issuer
+                pl.insert("iss".into(), json!(other_iss));
+                sign(&J::Object(pl), &cfg.alg)
+            } else {
+                // signed by the other issuer's key, claims to be the honest issuer
+                sign(&J::Object(pl), &other_key)
+            };
+            Some((Parts { jwt, disclosures: p.disclosures.clone(), kb: p.kb.clone() }, resolver))
+        }
+        _ => None,
+    }
+}
+
+pub fn check(case: &J) -> Verdict {
+    let Some(cfg) = Cfg::from_json(case) else { return Verdict::Trivial };
+    let m = &case["mutation"];
+    let sel = select_all(&cfg.claims);
+    let (_, pres) = match honest_presentation(&cfg, &sel) {
+        Ok(x) => x,
+        Err(v) => return v,
+    };
+    let Some(p) = Parts::parse(&pres, &cfg.format) else {
+        return fail("presentation does not parse", "well-formed presentation");
+    };
+    let kb = cfg.kb();
+    let (aud, nonce) = (kb.as_ref().map(|k| k.aud.as_str()), kb.as_ref().map(|k| k.nonce.as_str()));
+    if m["kind"] == "none" {
+        return match sut::verify(&pres, &cfg.alg, kb.as_ref(), &cfg.format) {
+            Out::Ok(_) => Verdict::Pass,
+            o => fail(format!("untouched presentation -> {}", o.brief()), "accepted (control)"),
+        };
+    }
+    let Some((tampered, key)) = mutate(&cfg, &p, m) else { return Verdict::Trivial };
+    if tampered == p && key == J::String(cfg.alg.clone()) {
+        return Verdict::Trivial;
+    }
+    let text = tampered.serialize(&cfg.format);
+    match sut::verify_with(&text, &key, aud, nonce, &cfg.format) {
+        Out::Err(_) => Verdict::Pass,
+        Out::Ok(v) => fail(
+            format!("ACCEPTED tampered issuer-signed JWT (jwt = {}) with claims {}", short(&tampered.jwt, 400), short(&jstr(&v), 300)),
+            "rejected with an error",
+        ),
+        Out::Panic(msg) => fail(format!("PANIC: {msg}"), "rejected with an error"),
+    }
+}
